@@ -171,7 +171,7 @@ def h_chain(ctx):
             ctx.check_eq('chain/aux/name', a.name, _name(ctx, w['vna_name' if need else 'vda_name']))
     # the auxiliary iterator handed out with an entry stays that entry's, in whatever order the two levels are consumed: all
     # entries collected first, then their auxiliaries walked last entry first
-    pairs = ctx.drain(section.iter_versions())
+    pairs = ctx.walk(lambda: section.iter_versions())
     late = [(v, ctx.drain(it)) for v, it in reversed(pairs)][::-1]
     key = 'vna_name' if need else 'vda_name'
     ctx.check_eq('chain/%s/auxiliaries-walked-later' % cfg['layout'], [[a[key] for a in auxs] for _, auxs in late], [[w[key] for w in wa] for _, wa in ents])
@@ -244,12 +244,24 @@ def h_versym(ctx):
     for v in vals:
         image += enc.enc_int(v, 2, little)
     image += [0xEE] * 2
-    elf = _Elf(ctx, ctx.stream(image), cls, little)
+    # the linked symbol table is a REAL SymbolTableSection over the same stream (its entries may be larger than Elf_Sym: the
+    # stride of a table is its sh_entsize), with its string table
     names = ['', 'a', 'bb', 'c'][:k]
-    sec = GV.GNUVerSymSection(_shdr(sh_type='SHT_GNU_versym', sh_offset=base, sh_size=2 * k, sh_entsize=2), '.gnu.version', elf, _SymDouble(ctx, names))
+    SEC = ctx.lib('elf.sections')
+    stroff = len(image)
+    image += [0, 0x61, 0, 0x62, 0x62, 0, 0x63, 0]
+    image += [0xEE] * (-len(image) % 8)
+    symoff = len(image)
+    ent = L.sizeof('SYM', cls) + cfg.get('symslack', 0)
+    for i in range(k):
+        image += L.encode('SYM', cls, little, dict(st_name=[0, 1, 3, 6][i], st_value=0x100 + i, st_info=0x12, st_shndx=1 if i else 0)) + [0xEE] * cfg.get('symslack', 0)
+    elf = _Elf(ctx, ctx.stream(image), cls, little)
+    strsec = SEC.StringTableSection(_shdr(sh_type='SHT_STRTAB', sh_offset=stroff, sh_size=8), '.dynstr', elf)
+    symsec = SEC.SymbolTableSection(_shdr(sh_type='SHT_DYNSYM', sh_offset=symoff, sh_size=k * ent, sh_entsize=ent, sh_link=1, sh_info=1), '.dynsym', elf, strsec)
+    sec = GV.GNUVerSymSection(_shdr(sh_type='SHT_GNU_versym', sh_offset=base, sh_size=2 * k, sh_entsize=2), '.gnu.version', elf, symsec)
     ctx.outcome('ok')
     ctx.check_eq('versym/num_symbols', sec.num_symbols(), k)
-    got = ctx.drain(sec.iter_symbols())
+    got = ctx.walk(lambda: sec.iter_symbols())
     ctx.check_eq('versym/count', len(got), k)
     for i, s in enumerate(got):
         ctx.check_eq('versym/name', s.name, names[i])
@@ -302,6 +314,6 @@ HARNESSES = [
            'must be followed, not assumed contiguous); all other fields symbolic; file and version names through the linked string table'),
     H('h15_3_index', h_index, _index_instances, decoy='all', expect=('ok', 'miss'),
       desc='get_version(index) with a symbolic 16-bit index over symbolic vd_ndx / vna_other values: the first entry carrying the index, None if none; has_indexes'),
-    H('h15_4_versym', h_versym, lambda tier: [dict(elfclass=c, little=l, k=k, base=b) for c, l in ENVS for (k, b) in ((0, 0), (3, 0), (4, 6))], expect=('ok',),
-      desc='GNUVerSymSection: one symbolic half-word per symbol paired with the symbol name; reserved indices named'),
+    H('h15_4_versym', h_versym, lambda tier: [dict(elfclass=c, little=l, k=k, base=b, symslack=sl) for c, l in ENVS for (k, b, sl) in ((0, 0, 0), (3, 0, 0), (4, 6, 0), (3, 2, 8))], expect=('ok',),
+      desc='GNUVerSymSection: one symbolic half-word per symbol paired with the name of that symbol in the linked (real) symbol table, whose entries may be padded; reserved indices named'),
 ]
